@@ -2,7 +2,6 @@ package eng
 
 import (
 	"fmt"
-	"go/constant"
 	"go/types"
 
 	"golang.org/x/tools/go/ssa"
@@ -238,6 +237,8 @@ func runC02(c *Check, w *World) {
 	checkRESTEndpoints(c, w, tb, ef, "R02.REST", "/totp/generate", "/totp/validate")
 	if w.Cfg.Name == CfgWasm.Name && w.SPkgs[WasmPath] != nil {
 		ruleWasmTimeStep(c, w, tb, newIVWithTables(w, tb, ef), "R02.W", jsRegistrations(w, tb))
+		ruleWasmKey(c, w, tb, "R02.W", jsRegistrations(w, tb), "generateTOTP")
+		ruleJSNumberCoercion(c, w, "R02.W")
 	}
 	c.Floor("R02.1", 3)
 	c.Floor("R02.2", 6)
@@ -292,14 +293,7 @@ func decimalOf(tb *TB, t *Term) (*Term, bool) {
 // the gated form (x == 0 ? 30 : x, after normalising helper calls) and the in-place form (a store of
 // 30 into the local copy's Period field guarded by Period == 0).
 func urlPeriodDefault(w *World, tb *TB, uf *ssa.Function) (bool, string) {
-	var pt *Term
-	EachInstr(uf, func(in ssa.Instruction) {
-		if mu, ok := in.(*ssa.MapUpdate); ok {
-			if k, ok := mu.Key.(*ssa.Const); ok && k.Value != nil && k.Value.Kind() == constant.String && constant.StringVal(k.Value) == "period" {
-				pt = tb.Of(mu.Value)
-			}
-		}
-	})
+	pt := extraQueryParams(tb, uf)["period"]
 	if pt == nil {
 		return false, "absent"
 	}
